@@ -4,7 +4,7 @@
 from abc import abstractmethod, ABCMeta
 from dataclasses import dataclass, field
 import warnings
-from typing import List, Iterator, Optional, Dict
+from typing import List, Iterator, Optional, Dict, Tuple
 import numpy as np
 from tqdm import tqdm
 from qce_circuit.utilities.custom_exceptions import InterfaceMethodException
@@ -226,22 +226,11 @@ class CircuitCompositeOperation(ICircuitCompositeOperation):
     @property
     def duration(self) -> float:
         """:return: Duration [ns]."""
-        total_duration: float = 0.0
-        # Guard clause, if graph does not contain non-Head nodes, return zero total duration
-        if self.empty_composite:
-            return total_duration
-        # Calculate relative start time of internal operations
-        relative_start_time: float = +np.inf
-        for start_node in self._circuit_graph.get_nodes_at(depth=1):
-            start_time: float = start_node.operation.start_time
-            if start_time < relative_start_time:
-                relative_start_time = start_time
-        # Calculate internal duration of operation branch
-        for leaf_node in self._circuit_graph.leaf_nodes:
-            delta_time = leaf_node.operation.end_time - relative_start_time
-            if delta_time > total_duration:
-                total_duration = delta_time
-        return total_duration
+        # Guard clause, if graph does not contain (nested) operations, return zero total duration
+        time_bounds: Optional[Tuple[float, float]] = self._get_relative_time_bounds()
+        if time_bounds is None:
+            return 0.0
+        return time_bounds[1] - time_bounds[0]
     # endregion
 
     # region Interface Methods
@@ -322,6 +311,39 @@ class CircuitCompositeOperation(ICircuitCompositeOperation):
     # endregion
 
     # region Class Methods
+    def _get_relative_time_bounds(self) -> Optional[Tuple[float, float]]:
+        """
+        :return: (Optional) Earliest start- and latest end-time of all (nested) operations,
+            relative to the start of the first internal operations. None if no operations are contained.
+        """
+        if self.empty_composite:
+            return None
+        first_nodes: List[OperationGraphNode] = self._circuit_graph.get_nodes_at(depth=1)
+        reference_time: float = +np.inf
+        earliest_start_time: float = +np.inf
+        latest_end_time: float = -np.inf
+        for node in self._circuit_graph.get_node_iterator():
+            operation: ICircuitOperation = node.operation
+            contains_operations: bool = True
+            if isinstance(operation, CircuitCompositeOperation):
+                # Evaluate nested composite only once
+                nested_time_bounds: Optional[Tuple[float, float]] = operation._get_relative_time_bounds()
+                contains_operations = nested_time_bounds is not None
+                nested_time_bounds = nested_time_bounds or (0.0, 0.0)
+                node_time: float = operation.relation_link.get_start_time(duration=nested_time_bounds[1] - nested_time_bounds[0])
+                start_time, end_time = node_time + nested_time_bounds[0], node_time + nested_time_bounds[1]
+            else:
+                node_time: float = operation.start_time
+                start_time, end_time = node_time, node_time + operation.duration
+            if node in first_nodes:
+                reference_time = min(reference_time, node_time)
+            if contains_operations:
+                earliest_start_time = min(earliest_start_time, start_time)
+                latest_end_time = max(latest_end_time, end_time)
+        if earliest_start_time > latest_end_time:
+            return None
+        return earliest_start_time - reference_time, latest_end_time - reference_time
+
     def extend(self, other: 'CircuitCompositeOperation') -> 'CircuitCompositeOperation':
         """
         WARNING: Applies modifier inplace.
